@@ -178,6 +178,16 @@ type c18Event struct {
 	Bad    string
 }
 
+// c18Attempt: one publish attempt of the dispatcher as seen at the
+// activity.beforePublish hook.
+type c18Attempt struct {
+	Server  string
+	ID      uint64
+	Paused  bool // __activity/0 was paused on that server when the attempt began
+	RO      bool // ... and read-only (a publish is then refused before it could resume anything)
+	Resumes int  // committed RESUME_STREAM(__activity) operations known at that time
+}
+
 type c18Stream struct {
 	parts    int32
 	paused   map[int32]bool
@@ -227,6 +237,20 @@ type c18Env struct {
 	snapshots    int
 	opsOK        int
 	opsErr       int
+
+	// attempts: the dispatcher's publish attempts that went on to the real
+	// publish (no injected failure), in order, with the state they met (see
+	// pausedNotResumed).  activityResumes counts the committed RESUME_STREAM
+	// operations on __activity learned so far.
+	attempts        []c18Attempt
+	activityResumes int
+	// gapsOK: offset gaps in what a reader of __activity is served are not a
+	// reader problem in this scenario (the log cleaner may have removed
+	// messages); the events that are left are judged.
+	gapsOK bool
+	gaps   int
+	// activityRO: the harness has set __activity read-only (under mu)
+	activityRO bool
 
 	// driver-side model (only used to generate mostly valid operations)
 	streams map[string]*c18Stream
@@ -350,6 +374,7 @@ func (e *c18Env) installHooks(failBudget, dupBudget, failPct, dupPct int, restar
 				}
 			}
 		}
+		paused, ro := e.activityPausedOn(sid)
 		e.mu.Lock()
 		defer e.mu.Unlock()
 		e.hitsBefore++
@@ -367,7 +392,11 @@ func (e *c18Env) installHooks(failBudget, dupBudget, failPct, dupPct int, restar
 			e.tracef("hook beforePublish server=%s id=%d -> INJECT publish failure", sid, id)
 			return errors.New("c18: injected publish failure")
 		}
-		e.tracef("hook beforePublish server=%s id=%d", sid, id)
+		e.tracef("hook beforePublish server=%s id=%d activityPaused=%v readonly=%v", sid, id, paused, ro)
+		if len(e.attempts) > 64 {
+			e.attempts = e.attempts[len(e.attempts)-16:]
+		}
+		e.attempts = append(e.attempts, c18Attempt{Server: sid, ID: id, Paused: paused, RO: ro || e.activityRO, Resumes: e.activityResumes})
 		return nil
 	}))
 	e.removers = append(e.removers, vfHooks.On("activity.afterPublish", func(a ...interface{}) error {
@@ -466,8 +495,60 @@ func (e *c18Env) learn(index uint64, cmd bool, data []byte, src string) {
 	ent := c18Entry{Cmd: cmd, Source: src}
 	if cmd {
 		ent.Data = append([]byte(nil), data...)
+		l := &proto.RaftLog{}
+		if l.Unmarshal(data) == nil && l.Op == proto.Op_RESUME_STREAM && l.ResumeStreamOp.GetStream() == c18ActivityStream {
+			e.activityResumes++
+		}
 	}
 	e.known[index] = ent
+}
+
+// activityPausedOn: is partition 0 of __activity paused in the metadata of the
+// server with this (prefixed) id?
+func (e *c18Env) activityPausedOn(sid string) (paused, readonly bool) {
+	if e.c == nil {
+		return false, false
+	}
+	n := e.c.Nodes[strings.TrimPrefix(sid, e.prefix)]
+	if n == nil {
+		return false, false
+	}
+	srv := n.Server()
+	if srv == nil {
+		return false, false
+	}
+	p := srv.metadata.GetPartition(c18ActivityStream, 0)
+	if p == nil {
+		return false, false
+	}
+	return p.IsPaused(), p.IsReadonly()
+}
+
+// pausedNotResumed is a stuck-state predicate read from hook counters, not
+// from the clock.  A paused stream is resumed by the next publish to it
+// (documentation/pausing_streams.md) and the dispatcher is the only publisher
+// of __activity.  If its last three publish attempts - none of them failed by
+// the harness - were for one and the same event, each began with __activity
+// paused (and not read-only: a publish to a read-only stream is refused before
+// it could resume anything) and no RESUME_STREAM operation on __activity was committed between
+// the first and the third, then its attempts do not resume the stream: every
+// further attempt meets the same state, this event and everything committed
+// after it is never listed.
+func (e *c18Env) pausedNotResumed() string {
+	e.mu.Lock()
+	defer e.mu.Unlock()
+	n := len(e.attempts)
+	if n < 3 || e.gate != nil {
+		return ""
+	}
+	a := e.attempts[n-3:]
+	for _, x := range a {
+		if !x.Paused || x.RO || x.ID != a[0].ID || x.Server != a[0].Server || x.Resumes != a[0].Resumes {
+			return ""
+		}
+	}
+	return fmt.Sprintf("the dispatcher of %s has made 3 publish attempts in a row for event id %d, each of them while %s was paused (and not read-only), none failed by the harness, and no RESUME_STREAM operation on %s was committed in between (%d known before the first and before the third): its publishes do not resume the paused activity stream, so the event and everything committed after it is never listed",
+		a[0].Server, a[0].ID, c18ActivityStream, c18ActivityStream, a[0].Resumes)
 }
 
 // attach registers a Raft log listener on a (re)started server.
@@ -856,6 +937,13 @@ func (e *c18Env) doOp(op c18Op) {
 		if st := e.streams[op.Stream]; err == nil && st != nil {
 			st.readonly = op.Flag
 		}
+		if op.Stream == c18ActivityStream {
+			// set before the call returns an error too: the operation may have
+			// been committed all the same
+			e.mu.Lock()
+			e.activityRO = op.Flag || (err != nil && e.activityRO)
+			e.mu.Unlock()
+		}
 	case "join":
 		_, err = srv.api.JoinConsumerGroup(ctx, &client.JoinConsumerGroupRequest{GroupId: op.Group, ConsumerId: op.Consumer, Streams: op.Streams})
 		if err == nil {
@@ -967,7 +1055,11 @@ func (e *c18Env) checkSafety(events []c18Event) (first map[uint64]int64, ok bool
 	var maxFirst uint64
 	nextOff := int64(-1)
 	for _, ev := range events {
-		if nextOff >= 0 && ev.Offset != nextOff {
+		if nextOff >= 0 && ev.Offset != nextOff && e.gapsOK && ev.Offset > nextOff {
+			e.mu.Lock()
+			e.gaps++
+			e.mu.Unlock()
+		} else if nextOff >= 0 && ev.Offset != nextOff {
 			// not part of C18 (C01/C03 own the log), but the reader must be sane
 			e.inconclusive(fmt.Sprintf("activity log offsets not contiguous: %d after %d", ev.Offset, nextOff-1))
 			return first, false
@@ -1018,12 +1110,22 @@ func (e *c18Env) finish(fenceName string) {
 	if bad {
 		return
 	}
+	fenceIdx := e.commitFence(fenceName)
+	if fenceIdx == 0 {
+		return
+	}
+	e.awaitAndJudge(fenceIdx)
+}
+
+// commitFence commits the fence operation and returns its Raft index (0: the
+// scenario is inconclusive).
+func (e *c18Env) commitFence(fenceName string) uint64 {
 	var fenceIdx uint64
 	fenceCanon := fmt.Sprintf("CREATE_STREAM stream=%q partitions=[0]", fenceName)
 	for attempt := 0; attempt < 4 && fenceIdx == 0; attempt++ {
 		srv := e.leader()
 		if srv == nil {
-			return
+			return 0
 		}
 		ctx, cancel := context.WithTimeout(context.Background(), 12*time.Second)
 		_, err := srv.api.CreateStream(ctx, &client.CreateStreamRequest{Name: fenceName, Subject: "c18." + fenceName, Partitions: 1, ReplicationFactor: 1})
@@ -1041,9 +1143,15 @@ func (e *c18Env) finish(fenceName string) {
 	}
 	if fenceIdx == 0 {
 		e.inconclusive("fence operation could not be committed")
-		return
+		return 0
 	}
 	e.step("fence(#%d)", fenceIdx)
+	return fenceIdx
+}
+
+// awaitAndJudge waits (watchdog / stuck-state predicates) until the event of
+// the fence is served and compares the activity stream with the Raft log.
+func (e *c18Env) awaitAndJudge(fenceIdx uint64) {
 	var events []c18Event
 	deadline := time.Now().Add(120 * time.Second)
 	waitStart, lastProbe := time.Now(), time.Now()
@@ -1070,6 +1178,13 @@ func (e *c18Env) finish(fenceName string) {
 				fmt.Sprintf("committed operations up to the fence #%d can never be listed: %s", fenceIdx, what), events, ops)
 			return
 		}
+		if what := e.pausedNotResumed(); what != "" {
+			e.absorbAll()
+			ops, _, _ := e.listedOps()
+			e.fail("C18:"+e.unit+":stuck:dispatcher-does-not-resume-the-paused-activity-stream",
+				fmt.Sprintf("committed operations up to the fence #%d can never be listed: %s", fenceIdx, what), events, ops)
+			return
+		}
 		if time.Since(lastProbe) > time.Second && time.Since(waitStart) > 3*time.Second {
 			lastProbe = time.Now()
 			if what := e.leaderWithoutDispatcher(fenceIdx); what != "" {
@@ -1083,7 +1198,7 @@ func (e *c18Env) finish(fenceName string) {
 		time.Sleep(40 * time.Millisecond)
 	}
 	e.absorbAll()
-	ops, byIndex, other := e.listedOps()
+	ops, _, _ := e.listedOps()
 	e.mu.Lock()
 	conflict := e.conflict
 	e.mu.Unlock()
@@ -1117,6 +1232,13 @@ func (e *c18Env) finish(fenceName string) {
 		e.inconclusive(fmt.Sprintf("watchdog: event for fence operation #%d not served after faults stopped (%d events so far)", fenceIdx, len(events)))
 		return
 	}
+	e.complete(events, first, fenceIdx)
+}
+
+// complete: the fence has been served; every listed operation up to it must
+// have an event.
+func (e *c18Env) complete(events []c18Event, first map[uint64]int64, fenceIdx uint64) {
+	ops, byIndex, other := e.listedOps()
 	// completeness needs every index up to the fence to be classified
 	for i := uint64(1); i <= fenceIdx; i++ {
 		if _, a := byIndex[i]; a {
